@@ -44,7 +44,9 @@ theorem cleanup_fields (z : State) :
   have hb : heightOf batchCleanupSrc z = z.obsExt := by rw [e1]; rfl
   have hc : heightOf callCleanupSrc (cleanupBatches z) = z.obsExt := by rw [e2]; rfl
   simp only
-  unfold cleanupCalls
+  obtain ⟨fm, hfm⟩ := cleanupCalls_core (cleanupBatches z)
+  rw [hfm]
+  unfold cleanupCallsCore
   obtain ⟨_, h2, h3, _, h5, h6, _⟩ := foldl_refundCall (expiredCalls (heightOf callCleanupSrc (cleanupBatches z)) (cleanupBatches z).calls)
     { cleanupBatches z with calls := if callCleanupDeletes then keptCalls (heightOf callCleanupSrc (cleanupBatches z)) (cleanupBatches z).calls else (cleanupBatches z).calls }
   obtain ⟨m1, m2, _, _⟩ := foldl_refundCall_misc (expiredCalls (heightOf callCleanupSrc (cleanupBatches z)) (cleanupBatches z).calls)
@@ -141,8 +143,8 @@ theorem J_cleanup {z : State} {x : Ext} (hj : J z x) : J (cleanupCalls (cleanupB
 
 theorem bridgeCall_cases (s : State) (a r : Addr) (to d m : String) (cs : List (Token × Nat)) :
     (doBridgeCall s a r to d m cs).1 = s ∨
-    ∃ bal', 0 < calTimeout s s.params.callTimeout ∧ (doBridgeCall s a r to d m cs).1 =
-      { s with nextCallId := s.nextCallId + 1, bal := bal',
+    ∃ bal' erc' fm, 0 < calTimeout s s.params.callTimeout ∧ (doBridgeCall s a r to d m cs).1 =
+      { s with nextCallId := s.nextCallId + 1, bal := bal', erc := erc', fromMsg := fm,
                calls := s.calls ++ [⟨s.nextCallId, a, r, cs, to, d, m, calTimeout s s.params.callTimeout, s.fxHeight⟩] } := by
   have h5 : callZeroTimeoutCmp = .le := by decide
   have h6 : callZeroTimeoutRejects = true := by decide
@@ -154,7 +156,23 @@ theorem bridgeCall_cases (s : State) (a r : Addr) (to d m : String) (cs : List (
     · simp only [h5, h6, Cmp.eval, Bool.true_and, decide_eq_true_eq, Nat.le_zero_eq]
       split
       · left; rfl
-      · right; exact ⟨_, by omega, rfl⟩
+      · right; exact ⟨_, s.erc, _, by omega, rfl⟩
+
+/-- the `bridgeCall` precompile creates the record exactly as the message does (other ledger, no from-message mark) -/
+theorem pcall_cases (s : State) (a r : Addr) (to d m : String) (cs : List (Token × Nat)) :
+    (doPCall s a r to d m cs).1 = s ∨
+    ∃ bal' erc' fm, 0 < calTimeout s s.params.callTimeout ∧ (doPCall s a r to d m cs).1 =
+      { s with nextCallId := s.nextCallId + 1, bal := bal', erc := erc', fromMsg := fm,
+               calls := s.calls ++ [⟨s.nextCallId, a, r, cs, to, d, m, calTimeout s s.params.callTimeout, s.fxHeight⟩] } := by
+  have h5 : callZeroTimeoutCmp = .le := by decide
+  have h6 : callZeroTimeoutRejects = true := by decide
+  unfold doPCall
+  split
+  · simp only [h5, h6, Cmp.eval, Bool.true_and, decide_eq_true_eq, Nat.le_zero_eq]
+    split
+    · left; rfl
+    · right; exact ⟨_, _, _, by omega, rfl⟩
+  · left; rfl
 
 theorem range'_succ_concat (n : Nat) (h : 1 ≤ n) : range' 1 (n + 1 - 1) = range' 1 (n - 1) ++ [n] := by
   have : n + 1 - 1 = (n - 1) + 1 := by omega
@@ -163,8 +181,8 @@ theorem range'_succ_concat (n : Nat) (h : 1 ≤ n) : range' 1 (n + 1 - 1) = rang
   omega
 
 theorem J_reqBatch {s : State} {x : Ext} (hj : J s x) (t : Token) (mf bf : Nat) (fr : String) :
-    J (step s (.reqBatch t mf bf fr)).1 (x.next s (.reqBatch t mf bf fr)) := by
-  simp only [Ext.next, step]
+    J (step s (.reqBatch t mf bf fr)).1 (x.nextStd s (.reqBatch t mf bf fr)) := by
+  simp only [Ext.nextStd, step]
   rcases reqBatch_not_ok s t mf bf fr with ⟨n, hn⟩ | hsame
   · have hpair : doReqBatch s t mf bf fr = ((doReqBatch s t mf bf fr).1, .ok n) := by rw [← hn]
     obtain ⟨_, hs'⟩ := reqBatch_ok hpair
@@ -184,15 +202,38 @@ theorem J_reqBatch {s : State} {x : Ext} (hj : J s x) (t : Token) (mf bf : Nat) 
       · exact Or.inl (hj.sub b hb)
       · exact Or.inr rfl
   · rw [hsame]
-    simp only [drop_length, append_nil]
+    simp only [drop_length, map_nil, append_nil]
     exact hj
 
 theorem J_bridgeCall {s : State} {x : Ext} (hj : J s x) (a r : Addr) (to d m : String) (cs : List (Token × Nat)) :
-    J (step s (.bridgeCall a r to d m cs)).1 (x.next s (.bridgeCall a r to d m cs)) := by
-  simp only [Ext.next, step]
-  rcases bridgeCall_cases s a r to d m cs with hsame | ⟨bal', timeout, hs'⟩
+    J (step s (.bridgeCall a r to d m cs)).1 (x.nextStd s (.bridgeCall a r to d m cs)) := by
+  simp only [Ext.nextStd, step]
+  rcases bridgeCall_cases s a r to d m cs with hsame | ⟨bal', erc', fm, timeout, hs'⟩
   · rw [hsame]
-    simp only [drop_length, append_nil]
+    simp only [drop_length, map_nil, append_nil]
+    exact hj
+  · rw [hs']
+    simp only [drop_left]
+    refine ⟨hj.height, hj.batches, ?_, hj.pend, hj.nonces, hj.npos, ?_, by simp, hj.sub, ?_⟩
+    · intro c hc h1 h2
+      simp only [mem_append, mem_singleton] at hc ⊢
+      rcases hc with hc | rfl
+      · exact Or.inl (hj.calls c hc h1 h2)
+      · exact Or.inr rfl
+    · simp only [map_append, map_cons, map_nil, hj.cnonces]
+      exact (range'_succ_concat _ hj.cpos).symm
+    · intro c hc
+      simp only [mem_append, mem_singleton] at hc ⊢
+      rcases hc with hc | rfl
+      · exact Or.inl (hj.csub c hc)
+      · exact Or.inr rfl
+
+theorem J_pcall {s : State} {x : Ext} (hj : J s x) (a r : Addr) (to d m : String) (cs : List (Token × Nat)) :
+    J (step s (.pcall a r to d m cs)).1 (x.nextStd s (.pcall a r to d m cs)) := by
+  simp only [Ext.nextStd, step]
+  rcases pcall_cases s a r to d m cs with hsame | ⟨bal', erc', fm, timeout, hs'⟩
+  · rw [hsame]
+    simp only [drop_length, map_nil, append_nil]
     exact hj
   · rw [hs']
     simp only [drop_left]
@@ -240,9 +281,9 @@ theorem J_exec {s : State} {x : Ext} (hj : J s x) (n : Nat) : J (doExec s n).1 x
 
 /-! ## observed events -/
 
-/-- an admissible batch execution finds its batch on fxcore -/
+/-- an admissibleStd batch execution finds its batch on fxcore -/
 theorem admissible_batch_found {s : State} {x : Ext} (hj : J s x) {h t n : Nat}
-    (ha : admissible x (.observe h (.batch t n))) :
+    (ha : admissibleStd x (.observe h (.batch t n))) :
     ∃ b, s.batches.find? (fun b => decide (b.token = t ∧ b.nonce = n)) = some b ∧ b ∈ s.batches ∧ b.token = t ∧ b.nonce = n := by
   have hs1 : solBatchNonceCmp = .lt := by decide
   have hs2 : solBatchTimeoutCmp = .lt := by decide
@@ -258,8 +299,8 @@ theorem admissible_batch_found {s : State} {x : Ext} (hj : J s x) {h t n : Nat}
     simp only [decide_eq_true_eq] at this
     exact ⟨b', rfl, mem_of_find?_eq_some hf, this.1, this.2⟩
 
-theorem J_observe {s : State} {x : Ext} (hj : J s x) (h : Nat) (ev : Ev) (ha : admissible x (.observe h ev)) :
-    J (doObserve s h ev).1 (x.next s (.observe h ev)) ∧ (doObserve s h ev).2 ≠ .panic := by
+theorem J_observe {s : State} {x : Ext} (hj : J s x) (h : Nat) (ev : Ev) (ha : admissibleStd x (.observe h ev)) :
+    J (doObserve s h ev).1 (x.nextStd s (.observe h ev)) ∧ (doObserve s h ev).2 ≠ .panic := by
   have hs1 : solBatchNonceCmp = .lt := by decide
   have hs2 : solBatchTimeoutCmp = .lt := by decide
   have hs3 : solCallTimeoutCmp = .lt := by decide
@@ -271,14 +312,14 @@ theorem J_observe {s : State} {x : Ext} (hj : J s x) (h : Nat) (ev : Ev) (ha : a
   simp only
   cases ev with
   | other =>
-    simp only [handleEvent, Ext.next]
+    simp only [handleEvent, Ext.nextStd]
     have hh : x.height ≤ h := ha
     refine ⟨J_cleanup ?_, by simp⟩
     exact ⟨rfl, fun b hb h1 h2 => hj.batches b hb h1 (by simp only at h2; omega),
       fun c hc h1 h2 => hj.calls c hc h1 (by simp only at h2; omega), hj.pend, hj.nonces, hj.npos, hj.cnonces, hj.cpos,
       hj.sub, hj.csub⟩
   | result c ok =>
-    simp only [handleEvent, Ext.next]
+    simp only [handleEvent, Ext.nextStd]
     obtain ⟨hh, _⟩ := ha
     refine ⟨J_cleanup ?_, by simp⟩
     refine ⟨rfl, fun b hb h1 h2 => hj.batches b hb h1 (by simp only at h2; omega), ?_, ?_, hj.nonces, hj.npos,
@@ -295,7 +336,7 @@ theorem J_observe {s : State} {x : Ext} (hj : J s x) (h : Nat) (ev : Ev) (ha : a
     obtain ⟨b0, hfind, hb0, hb0t, hb0n⟩ := admissible_batch_found hj ha
     obtain ⟨hh, bb, _, _, _, hnonce, _⟩ := ha
     simp only [hs1, Cmp.eval, decide_eq_true_eq] at hnonce
-    simp only [handleEvent, hfind, Ext.next]
+    simp only [handleEvent, hfind, Ext.nextStd]
     refine ⟨J_cleanup ?_, by simp⟩
     simp only [executeBatch, cancelBatches, hcmp, hsame, Cmp.eval, Bool.not_true, Bool.false_or]
     refine ⟨rfl, ?_, fun c hc h1 h2 => hj.calls c hc h1 (by simp only at h2; omega), hj.pend, hj.nonces, hj.npos,
@@ -323,17 +364,24 @@ theorem J_observe {s : State} {x : Ext} (hj : J s x) (h : Nat) (ev : Ev) (ha : a
 
 /-- the part of the ghost the send / fee-increase logs do not touch -/
 theorem next_send_fields (x : Ext) (s : State) (a : Addr) (d : String) (t am f : Nat) :
-    (x.next s (.send a d t am f)).height = x.height ∧ (x.next s (.send a d t am f)).lastNonce = x.lastNonce ∧
-    (x.next s (.send a d t am f)).created = x.created ∧ (x.next s (.send a d t am f)).createdCalls = x.createdCalls ∧
-    (x.next s (.send a d t am f)).callDone = x.callDone := by
-  simp only [Ext.next]
+    (x.nextStd s (.send a d t am f)).height = x.height ∧ (x.nextStd s (.send a d t am f)).lastNonce = x.lastNonce ∧
+    (x.nextStd s (.send a d t am f)).created = x.created ∧ (x.nextStd s (.send a d t am f)).createdCalls = x.createdCalls ∧
+    (x.nextStd s (.send a d t am f)).callDone = x.callDone := by
+  simp only [Ext.nextStd]
+  split <;> exact ⟨rfl, rfl, rfl, rfl, rfl⟩
+
+theorem next_psend_fields (x : Ext) (s : State) (a : Addr) (d : String) (t am f : Nat) :
+    (x.nextStd s (.psend a d t am f)).height = x.height ∧ (x.nextStd s (.psend a d t am f)).lastNonce = x.lastNonce ∧
+    (x.nextStd s (.psend a d t am f)).created = x.created ∧ (x.nextStd s (.psend a d t am f)).createdCalls = x.createdCalls ∧
+    (x.nextStd s (.psend a d t am f)).callDone = x.callDone := by
+  simp only [Ext.nextStd]
   split <;> exact ⟨rfl, rfl, rfl, rfl, rfl⟩
 
 theorem next_incFee_fields (x : Ext) (s : State) (id : Nat) (who : Addr) (t add : Nat) :
-    (x.next s (.incFee id who t add)).height = x.height ∧ (x.next s (.incFee id who t add)).lastNonce = x.lastNonce ∧
-    (x.next s (.incFee id who t add)).created = x.created ∧ (x.next s (.incFee id who t add)).createdCalls = x.createdCalls ∧
-    (x.next s (.incFee id who t add)).callDone = x.callDone := by
-  simp only [Ext.next]
+    (x.nextStd s (.incFee id who t add)).height = x.height ∧ (x.nextStd s (.incFee id who t add)).lastNonce = x.lastNonce ∧
+    (x.nextStd s (.incFee id who t add)).created = x.created ∧ (x.nextStd s (.incFee id who t add)).createdCalls = x.createdCalls ∧
+    (x.nextStd s (.incFee id who t add)).callDone = x.callDone := by
+  simp only [Ext.nextStd]
   split <;> exact ⟨rfl, rfl, rfl, rfl, rfl⟩
 
 theorem J_ext {s : State} {x x' : Ext} (hj : J s x)
@@ -344,16 +392,21 @@ theorem J_ext {s : State} {x x' : Ext} (hj : J s x)
     by rw [h5]; exact hj.pend, by rw [h3]; exact hj.nonces, hj.npos, by rw [h4]; exact hj.cnonces, hj.cpos,
     by rw [h3]; exact hj.sub, by rw [h4]; exact hj.csub⟩
 
-/-- every operation keeps `J`, provided an observed event is admissible -/
-theorem J_step {s : State} {x : Ext} (hj : J s x) (op : Op) (ha : admissible x op) : J (step s op).1 (x.next s op) := by
+/-- every operation keeps `J`, provided an observed event is admissibleStd -/
+theorem J_step {s : State} {x : Ext} (hj : J s x) (op : Op) (ha : admissibleStd x op) : J (step s op).1 (x.nextStd s op) := by
   cases op with
   | send a d t am f =>
     refine J_ext ?_ (next_send_fields x s a d t am f)
     simp only [step]; unfold doSend
     repeat' split
     all_goals first | exact hj | exact J_frame hj rfl rfl rfl rfl rfl rfl
+  | psend a d t am f =>
+    refine J_ext ?_ (next_psend_fields x s a d t am f)
+    simp only [step]; unfold doPSend
+    repeat' split
+    all_goals first | exact hj | exact J_frame hj rfl rfl rfl rfl rfl rfl
   | cancel id who =>
-    simp only [step, Ext.next]; unfold doCancel
+    simp only [step, Ext.nextStd]; unfold doCancel
     repeat' split
     all_goals first | exact hj | exact J_frame hj rfl rfl rfl rfl rfl rfl
   | incFee id who t add =>
@@ -363,30 +416,31 @@ theorem J_step {s : State} {x : Ext} (hj : J s x) (op : Op) (ha : admissible x o
     all_goals first | exact hj | exact J_frame hj rfl rfl rfl rfl rfl rfl
   | reqBatch t mf bf fr => exact J_reqBatch hj t mf bf fr
   | bridgeCall a r to d m cs => exact J_bridgeCall hj a r to d m cs
+  | pcall a r to d m cs => exact J_pcall hj a r to d m cs
   | observe h ev => exact (J_observe hj h ev ha).1
-  | exec n => simp only [step, Ext.next]; exact J_exec hj n
+  | exec n => simp only [step, Ext.nextStd]; exact J_exec hj n
   | setParams p =>
-    simp only [step, Ext.next]
+    simp only [step, Ext.nextStd]
     split
     · exact hj
     · exact J_frame hj rfl rfl rfl rfl rfl rfl
   | block n =>
-    simp only [step, Ext.next, endBlock_eq]
+    simp only [step, Ext.nextStd, endBlock_eq]
     exact J_frame hj rfl rfl rfl rfl rfl rfl
 
-theorem J_run {s : State} {x : Ext} (hj : J s x) (ops : List Op) (ha : AdmissibleRun s x ops) :
-    J (runExt s x ops).1 (runExt s x ops).2 := by
+theorem J_run {s : State} {x : Ext} (hj : J s x) (ops : List Op) (ha : AdmissibleRunStd s x ops) :
+    J (runExtStd s x ops).1 (runExtStd s x ops).2 := by
   induction ops generalizing s x with
   | nil => exact hj
   | cons op ops ih => exact ih (J_step hj op ha.1) ha.2
 
-theorem runExt_fst (s : State) (x : Ext) (ops : List Op) : (runExt s x ops).1 = run s ops := by
+theorem runExt_fst (s : State) (x : Ext) (ops : List Op) : (runExtStd s x ops).1 = run s ops := by
   induction ops generalizing s x with
   | nil => rfl
-  | cons op ops ih => simp only [runExt, run, foldl_cons]; exact ih _ _
+  | cons op ops ih => simp only [runExtStd, run, foldl_cons]; exact ih _ _
 
-theorem admissibleRun_append {s : State} {x : Ext} {ops1 ops2 : List Op} (h : AdmissibleRun s x (ops1 ++ ops2)) :
-    AdmissibleRun s x ops1 ∧ AdmissibleRun (runExt s x ops1).1 (runExt s x ops1).2 ops2 := by
+theorem admissibleRun_append {s : State} {x : Ext} {ops1 ops2 : List Op} (h : AdmissibleRunStd s x (ops1 ++ ops2)) :
+    AdmissibleRunStd s x ops1 ∧ AdmissibleRunStd (runExtStd s x ops1).1 (runExtStd s x ops1).2 ops2 := by
   induction ops1 generalizing s x with
   | nil => exact ⟨trivial, h⟩
   | cons op ops ih =>
@@ -461,6 +515,9 @@ theorem released_only_by_observation (s : State) (op : Op) :
   | send a d t am f =>
     simp only [step]; unfold doSend
     constructor <;> intro r hr hn <;> exfalso <;> apply hn <;> (repeat' split) <;> exact hr
+  | psend a d t am f =>
+    simp only [step]; unfold doPSend
+    constructor <;> intro r hr hn <;> exfalso <;> apply hn <;> (repeat' split) <;> exact hr
   | cancel id who =>
     simp only [step]; unfold doCancel
     constructor <;> intro r hr hn <;> exfalso <;> apply hn <;> (repeat' split) <;> exact hr
@@ -483,10 +540,19 @@ theorem released_only_by_observation (s : State) (op : Op) :
   | bridgeCall a r to d m cs =>
     simp only [step]
     constructor <;> intro q hq hn <;> exfalso <;> apply hn
-    · rcases bridgeCall_cases s a r to d m cs with hsame | ⟨_, _, hs'⟩
+    · rcases bridgeCall_cases s a r to d m cs with hsame | ⟨_, _, _, _, hs'⟩
       · rw [hsame]; exact hq
       · rw [hs']; exact hq
-    · rcases bridgeCall_cases s a r to d m cs with hsame | ⟨_, _, hs'⟩
+    · rcases bridgeCall_cases s a r to d m cs with hsame | ⟨_, _, _, _, hs'⟩
+      · rw [hsame]; exact hq
+      · rw [hs']; exact mem_append_left _ hq
+  | pcall a r to d m cs =>
+    simp only [step]
+    constructor <;> intro q hq hn <;> exfalso <;> apply hn
+    · rcases pcall_cases s a r to d m cs with hsame | ⟨_, _, _, _, hs'⟩
+      · rw [hsame]; exact hq
+      · rw [hs']; exact hq
+    · rcases pcall_cases s a r to d m cs with hsame | ⟨_, _, _, _, hs'⟩
       · rw [hsame]; exact hq
       · rw [hs']; exact mem_append_left _ hq
   | setParams p =>
@@ -569,10 +635,10 @@ theorem settled_grows_run (s : State) (ops : List Op) : ∃ l, (run s ops).settl
 theorem run_append (s : State) (ops1 ops2 : List Op) : run s (ops1 ++ ops2) = run (run s ops1) ops2 := by
   simp [run, foldl_append]
 
-/-- an admissible batch execution is applied: the batch is found, the claim does not panic, every transfer of the batch
+/-- an admissibleStd batch execution is applied: the batch is found, the claim does not panic, every transfer of the batch
 is logged as executed -/
 theorem admissible_execution_applies_aux {s : State} {x : Ext} (hj : J s x) {h t n : Nat}
-    (ha : admissible x (.observe h (.batch t n))) :
+    (ha : admissibleStd x (.observe h (.batch t n))) :
     ∃ b ∈ s.batches, b.token = t ∧ b.nonce = n ∧ (doObserve s h (.batch t n)).2 = .ok (s.eventNonce + 1) ∧
       ∀ tx ∈ b.txs, (⟨false, tx.id, .executed, 0, [(tx.token, tx.amount + tx.fee)]⟩ : Settle)
         ∈ (doObserve s h (.batch t n)).1.settled := by
@@ -615,15 +681,20 @@ theorem N_shrink {s s' : State} {x x' : Ext} (hn : N s x) (hc : x'.created = x.c
   ⟨by rw [hc, h1]; exact hn.nonces, by rw [h1]; exact hn.npos, by rw [hcc, h2]; exact hn.cnonces, by rw [h2]; exact hn.cpos,
    fun b hb' => by rw [hc]; exact hn.sub b (hb b hb'), fun c hc' => by rw [hcc]; exact hn.csub c (hcl c hc')⟩
 
-theorem N_step {s : State} {x : Ext} (hn : N s x) (op : Op) : N (step s op).1 (x.next s op) := by
+theorem N_step {s : State} {x : Ext} (hn : N s x) (op : Op) : N (step s op).1 (x.nextStd s op) := by
   cases op with
   | send a d t am f =>
     obtain ⟨_, _, e3, e4, _⟩ := next_send_fields x s a d t am f
     simp only [step]; unfold doSend
     repeat' split
     all_goals exact N_shrink hn e3 e4 (fun _ h => h) (fun _ h => h) rfl rfl
+  | psend a d t am f =>
+    obtain ⟨_, _, e3, e4, _⟩ := next_psend_fields x s a d t am f
+    simp only [step]; unfold doPSend
+    repeat' split
+    all_goals exact N_shrink hn e3 e4 (fun _ h => h) (fun _ h => h) rfl rfl
   | cancel id who =>
-    simp only [step, Ext.next]; unfold doCancel
+    simp only [step, Ext.nextStd]; unfold doCancel
     repeat' split
     all_goals first | exact hn | exact N_shrink hn rfl rfl (fun _ h => h) (fun _ h => h) rfl rfl
   | incFee id who t add =>
@@ -632,7 +703,7 @@ theorem N_step {s : State} {x : Ext} (hn : N s x) (op : Op) : N (step s op).1 (x
     repeat' split
     all_goals exact N_shrink hn e3 e4 (fun _ h => h) (fun _ h => h) rfl rfl
   | reqBatch t mf bf fr =>
-    simp only [Ext.next, step]
+    simp only [Ext.nextStd, step]
     rcases reqBatch_not_ok s t mf bf fr with ⟨n, hn'⟩ | hsame
     · have hpair : doReqBatch s t mf bf fr = ((doReqBatch s t mf bf fr).1, .ok n) := by rw [← hn']
       rw [(reqBatch_ok hpair).2]
@@ -646,13 +717,29 @@ theorem N_step {s : State} {x : Ext} (hn : N s x) (op : Op) : N (step s op).1 (x
         · exact Or.inl (hn.sub b hb)
         · exact Or.inr rfl
     · rw [hsame]
-      simp only [drop_length, append_nil]
+      simp only [drop_length, map_nil, append_nil]
       exact hn
   | bridgeCall a r to d m cs =>
-    simp only [Ext.next, step]
-    rcases bridgeCall_cases s a r to d m cs with hsame | ⟨bal', timeout, hs'⟩
+    simp only [Ext.nextStd, step]
+    rcases bridgeCall_cases s a r to d m cs with hsame | ⟨bal', erc', fm, timeout, hs'⟩
     · rw [hsame]
-      simp only [drop_length, append_nil]
+      simp only [drop_length, map_nil, append_nil]
+      exact hn
+    · rw [hs']
+      simp only [drop_left]
+      refine ⟨hn.nonces, hn.npos, ?_, by simp, hn.sub, ?_⟩
+      · simp only [map_append, map_cons, map_nil, hn.cnonces]
+        exact (range'_succ_concat _ hn.cpos).symm
+      · intro c hc
+        simp only [mem_append, mem_singleton] at hc ⊢
+        rcases hc with hc | rfl
+        · exact Or.inl (hn.csub c hc)
+        · exact Or.inr rfl
+  | pcall a r to d m cs =>
+    simp only [Ext.nextStd, step]
+    rcases pcall_cases s a r to d m cs with hsame | ⟨bal', erc', fm, timeout, hs'⟩
+    · rw [hsame]
+      simp only [drop_length, map_nil, append_nil]
       exact hn
     · rw [hs']
       simp only [drop_left]
@@ -665,7 +752,7 @@ theorem N_step {s : State} {x : Ext} (hn : N s x) (op : Op) : N (step s op).1 (x
         · exact Or.inl (hn.csub c hc)
         · exact Or.inr rfl
   | observe h ev =>
-    have hx : (x.next s (.observe h ev)).created = x.created ∧ (x.next s (.observe h ev)).createdCalls = x.createdCalls := by
+    have hx : (x.nextStd s (.observe h ev)).created = x.created ∧ (x.nextStd s (.observe h ev)).createdCalls = x.createdCalls := by
       cases ev <;> exact ⟨rfl, rfl⟩
     simp only [step]
     rcases observe_fields s h ev with hsame | ⟨s2, hh, hfin⟩
@@ -681,22 +768,22 @@ theorem N_step {s : State} {x : Ext} (hn : N s x) (op : Op) : N (step s op).1 (x
         rw [f2, g1] at hc
         exact (dropWhile_sublist _).subset hc
   | exec n =>
-    simp only [step, Ext.next]; unfold doExec
+    simp only [step, Ext.nextStd]; unfold doExec
     repeat' split
     all_goals first
       | exact hn
       | exact N_shrink hn rfl rfl (fun _ h => h) (fun _ h => mem_of_mem_erase h) rfl rfl
       | (simp only [refundCall]; exact N_shrink hn rfl rfl (fun _ h => h) (fun _ h => mem_of_mem_erase h) rfl rfl)
   | setParams p =>
-    simp only [step, Ext.next]
+    simp only [step, Ext.nextStd]
     split
     · exact hn
     · exact N_shrink hn rfl rfl (fun _ h => h) (fun _ h => h) rfl rfl
   | block n =>
-    simp only [step, Ext.next, endBlock_eq]
+    simp only [step, Ext.nextStd, endBlock_eq]
     exact N_shrink hn rfl rfl (fun _ h => h) (fun _ h => h) rfl rfl
 
-theorem N_run {s : State} {x : Ext} (hn : N s x) (ops : List Op) : N (runExt s x ops).1 (runExt s x ops).2 := by
+theorem N_run {s : State} {x : Ext} (hn : N s x) (ops : List Op) : N (runExtStd s x ops).1 (runExtStd s x ops).2 := by
   induction ops generalizing s x with
   | nil => exact hn
   | cons op ops ih => exact ih (N_step hn op)
@@ -732,10 +819,13 @@ structure T (x : Ext) : Prop where
   batches : ∀ b ∈ x.created, 0 < b.timeout
   calls : ∀ c ∈ x.createdCalls, 0 < c.timeout
 
-theorem T_step {s : State} {x : Ext} (ht : T x) (op : Op) : T (x.next s op) := by
+theorem T_step {s : State} {x : Ext} (ht : T x) (op : Op) : T (x.nextStd s op) := by
   cases op with
   | send a d t am f =>
     obtain ⟨_, _, e3, e4, _⟩ := next_send_fields x s a d t am f
+    exact ⟨by rw [e3]; exact ht.batches, by rw [e4]; exact ht.calls⟩
+  | psend a d t am f =>
+    obtain ⟨_, _, e3, e4, _⟩ := next_psend_fields x s a d t am f
     exact ⟨by rw [e3]; exact ht.batches, by rw [e4]; exact ht.calls⟩
   | incFee id who t add =>
     obtain ⟨_, _, e3, e4, _⟩ := next_incFee_fields x s id who t add
@@ -746,7 +836,7 @@ theorem T_step {s : State} {x : Ext} (ht : T x) (op : Op) : T (x.next s op) := b
   | block n => exact ht
   | observe h ev => cases ev <;> exact ⟨ht.batches, ht.calls⟩
   | reqBatch t mf bf fr =>
-    simp only [Ext.next, step]
+    simp only [Ext.nextStd, step]
     rcases reqBatch_not_ok s t mf bf fr with ⟨n, hn'⟩ | hsame
     · have hpair : doReqBatch s t mf bf fr = ((doReqBatch s t mf bf fr).1, .ok n) := by rw [← hn']
       have hpos := reqBatch_timeout_pos hpair
@@ -758,13 +848,13 @@ theorem T_step {s : State} {x : Ext} (ht : T x) (op : Op) : T (x.next s op) := b
       · exact ht.batches b hb
       · exact hpos
     · rw [hsame]
-      simp only [drop_length, append_nil]
+      simp only [drop_length, map_nil, append_nil]
       exact ht
   | bridgeCall a r to d m cs =>
-    simp only [Ext.next, step]
-    rcases bridgeCall_cases s a r to d m cs with hsame | ⟨bal', timeout, hs'⟩
+    simp only [Ext.nextStd, step]
+    rcases bridgeCall_cases s a r to d m cs with hsame | ⟨bal', erc', fm, timeout, hs'⟩
     · rw [hsame]
-      simp only [drop_length, append_nil]
+      simp only [drop_length, map_nil, append_nil]
       exact ht
     · rw [hs']
       simp only [drop_left]
@@ -774,7 +864,21 @@ theorem T_step {s : State} {x : Ext} (ht : T x) (op : Op) : T (x.next s op) := b
       · exact ht.calls c hc
       · exact timeout
 
-theorem T_run {s : State} {x : Ext} (ht : T x) (ops : List Op) : T (runExt s x ops).2 := by
+  | pcall a r to d m cs =>
+    simp only [Ext.nextStd, step]
+    rcases pcall_cases s a r to d m cs with hsame | ⟨bal', erc', fm, timeout, hs'⟩
+    · rw [hsame]
+      simp only [drop_length, map_nil, append_nil]
+      exact ht
+    · rw [hs']
+      simp only [drop_left]
+      refine ⟨ht.batches, fun c hc => ?_⟩
+      simp only [mem_append, mem_singleton] at hc
+      rcases hc with hc | rfl
+      · exact ht.calls c hc
+      · exact timeout
+
+theorem T_run {s : State} {x : Ext} (ht : T x) (ops : List Op) : T (runExtStd s x ops).2 := by
   induction ops generalizing s x with
   | nil => exact ht
   | cons op ops ih => exact ih (T_step ht op)
